@@ -349,7 +349,7 @@ def main(chk):
         sample = [{"trace": t["id"], "cfg": t["cfg"], "events": len(t["ev"]),
                    "excerpt": ["%s %s %s %s ov=%d q=%r w=%r open=%r" % (e["t"], e["k"], e["op"], e["res"] if e["k"] == "ret" else "", e["o"]["ov"],
                                                                        e["o"]["q"], e["o"]["w"], e["o"]["open"])
-                               for e in t["ev"] if e["k"] != "run" or True][:14]}]
+                               for e in t["ev"]][:14]}]
     return chk.finish(
         dict(phase_wall=phase, states=states + rl.distinct, transitions=trans + rl.generated, model_check_runs=mc_detail, action_coverage=cov,
              traces_validated_against_impl=len(accepted), traces_rejected=len(rejected), trace_events=tot.get("events", 0),
@@ -375,7 +375,8 @@ def replay(chk, path):
         data = json.load(f)
     n = 0
     for case in data.get("cases", []):
-        j = case["replay"].get("job") if isinstance(case.get("replay"), dict) else None
+        rp = case.get("replay") if isinstance(case.get("replay"), dict) else {}
+        j = rp.get("job") or (rp if "programs" in rp else None)
         if not j:
             continue
         res = run_job(j)
